@@ -153,5 +153,29 @@ def run(chk: Check, repo: Repo) -> None:
         want = {("reconnected:t1", "reconnected:t2")} if st == "CONNECTED" else {("connection_lost:t1", "connection_lost:t2")}
         chk.ob("registry-connection-state", f.site(), got == want, f"state={st}: {sorted(got)}; reference {sorted(want)}", key=f"reg-state|{st}")
     chk.count("connection_states", len(states))
+    # a task outside the registry is not started: `Task.restart()` (cancel, then `_start()`, which raises RuntimeError for an
+    # unregistered task) is called outside xknx.core.task_registry only where `<task>.xknx is not None` holds - a device
+    # whose tasks were removed (XKNX.stop() removes them before it drains the queue) would raise out of `process()`, end
+    # the dispatch of that telegram for the devices behind it, and leave a task running that nothing stops
+    n_r = 0
+    for f_ in repo.all_functions():
+        if f_.module.name == M:
+            continue
+        cfg_ = None
+        for c in calls(f_.node):
+            if not (isinstance(c.func, ast.Attribute) and c.func.attr in ("restart", "_start") and not c.args):
+                continue
+            recv = ast.unparse(c.func.value)
+            if "task" not in recv.lower():
+                continue
+            n_r += 1
+            if cfg_ is None:
+                cfg_ = CFG(f_.node)
+                mf_ = cfg_.must_facts()
+            node = next((n for n in cfg_.nodes if n.ast is not None and n.kind in ("stmt", "test") and any(y is c for y in ast.walk(n.ast))), None)
+            fs = mf_.get(node.id, frozenset()) if node is not None else frozenset()
+            ok = (f"{recv}.xknx is not None", True) in fs or (f"{recv}.xknx is None", False) in fs or (f"{recv}.xknx", True) in fs
+            chk.ob("unregistered-task-is-never-started", f_.site(c), ok, f"{f_.qualname}: `{ast.unparse(c)}` " + ("only where the task is registered (`.xknx is not None`)" if ok else "without testing that the task is registered - after its tasks were removed the call raises RuntimeError('Task must be registered before start().') in the middle of a dispatch"), key=f"restart-guard|{f_.qualname}|{recv}")
+    chk.count("direct task restarts outside the registry", n_r)
     chk.rule("E7 decision tables (abstract path enumeration) of Task.cancel/_start/restart/connection_lost/reconnected/_start_internal and TaskRegistry.start_task/remove_task/stop/connection_state_changed_cb; E6 task-slot writer census")
     chk.assume("connection_state_changed_cb is invoked once per real state change (C25)")
